@@ -43,6 +43,7 @@ PROPS = {
         assumptions=[A['A5p'], A['A7'], "laws of f12pow in specs/f12pow.vrs (ring theory of the commutative ring of specs/tower.vrs)", A['D_FQ'], A['TOOLS']],
     ),
     'C11': dict(
+        design_ref='DESIGN.md sections 0 and 9.8 (unit miller); section 3 shows the earlier plan',
         standins=['pairing_products'],
         units_quick=['miller', 'finalexp'], units_thorough=['miller', 'finalexp', 'tower', 'ffdep'], timeout=1800,
         claim="PARTIAL (the product structure; what a single pairing IS - bilinearity, the value e(g1,g2) - is C03's subject and not claimed). Bls12::miller_loop (real body, the generic iterator argument "
